@@ -14,6 +14,19 @@ _markdown_charref = re.compile(r'&(#[0-9]{1,7};'
 _stdlib_charref = html._charref
 
 
+def unescape(string):
+    """
+    Like `html.unescape()`, but only for the character references of the
+    CommonMark spec (the ones ending with ';'), also outside of `tokenize()`.
+    """
+    saved_charref = html._charref
+    try:
+        html._charref = _markdown_charref
+        return html.unescape(string)
+    finally:
+        html._charref = saved_charref
+
+
 def tokenize(string, token_types):
     try:
         html._charref = _markdown_charref
